@@ -133,6 +133,8 @@ def mc(module, cfg, scratch, *, expect_violation=None, workers=NCPU, timeout=360
     return r
 
 
+MAX_CHUNK_BYTES = 20_000_000
+
 _VLINE = re.compile(r'^<<"V", (.*)>>\s*$')
 _SUMMARY = re.compile(r'^<<"SUMMARY", (.*)>>\s*$')
 
@@ -243,16 +245,28 @@ def trace_validate(module, cfg, cases, scratch, *, chunks=None, key="cases", ext
     if chunks is None:
         chunks = max(1, min(NCPU, n // 20))
     size = (n + chunks - 1) // chunks
-    parts = [cases[i:i + size] for i in range(0, n, size)]
+    # a chunk is also bounded in bytes: the JSON document of one TLC process must fit its heap
+    # (Json.deserialize builds the whole value); big runs simply get more chunks, NCPU at a time
+    texts = [json.dumps(c) for c in cases]
+    parts, ptexts, cur, curt, curb = [], [], [], [], 0
+    for c, t in zip(cases, texts):
+        if cur and (len(cur) >= size or curb + len(t) > MAX_CHUNK_BYTES):
+            parts.append(cur)
+            ptexts.append(curt)
+            cur, curt, curb = [], [], 0
+        cur.append(c)
+        curt.append(t)
+        curb += len(t) + 1
+    parts.append(cur)
+    ptexts.append(curt)
     files = []
-    for k, part in enumerate(parts):
+    extra = "".join(", " + json.dumps(k2) + ": " + json.dumps(v2) for k2, v2 in (extra_doc or {}).items())
+    for k, pt in enumerate(ptexts):
         f = scratch.path(f"trace-{module}-{k}-{time.time_ns()}.json")
-        doc = {key: part}
-        if extra_doc:
-            doc.update(extra_doc)
         with open(f, "w") as fh:
-            json.dump(doc, fh)
+            fh.write("{" + json.dumps(key) + ": [" + ",".join(pt) + "]" + extra + "}")
         files.append(f)
+    del texts, ptexts
 
     def run(k):
         e = dict(env or {})
